@@ -82,6 +82,8 @@ type cdDrv struct {
 	nconnCut, nscenario, ndeliver               int
 	npost, nsnappost                            int
 	nburst, nburstMsg, nburstMissing            int
+	nreport, nreportSkipped                     int
+	reportKinds                                 map[string]int
 	burstSizes                                  []int
 	inproc                                      bool
 	nnotrun                                     int
@@ -2075,6 +2077,307 @@ done:
 	d.nburstMissing += len(msgs) - next
 }
 
+// ------------------------------------------------------------------ (h) transfer status reports
+
+// cdRepRaft is the raft of either end in the transfer-status stage: the sender's gets the
+// reports, the receiver's the messages
+type cdRepRaft struct {
+	mu             sync.Mutex
+	fin, fail, unr int
+	procs          map[uint64]raftpb.Message // by ToGroup.GroupId
+	refuse         map[uint64]bool           // Process returns an error for these groups
+	sig            chan struct{}
+}
+
+func newCdRepRaft() *cdRepRaft {
+	return &cdRepRaft{procs: map[uint64]raftpb.Message{}, refuse: map[uint64]bool{}, sig: make(chan struct{}, 1024)}
+}
+func (r *cdRepRaft) ping() {
+	select {
+	case r.sig <- struct{}{}:
+	default:
+	}
+}
+func (r *cdRepRaft) Process(ctx context.Context, m raftpb.Message) error {
+	r.mu.Lock()
+	defer r.mu.Unlock()
+	if r.refuse[m.ToGroup.GroupId] {
+		return fmt.Errorf("raft refuses the message")
+	}
+	r.procs[m.ToGroup.GroupId] = m
+	return nil
+}
+func (r *cdRepRaft) IsPeerRemoved(id uint64) bool { return false }
+func (r *cdRepRaft) ReportUnreachable(id uint64, group raftpb.Group) {
+	r.mu.Lock()
+	r.unr++
+	r.mu.Unlock()
+	r.ping()
+}
+func (r *cdRepRaft) ReportSnapshot(id uint64, group raftpb.Group, status raft.SnapshotStatus) {
+	r.mu.Lock()
+	if status == raft.SnapshotFinish {
+		r.fin++
+	} else {
+		r.fail++
+	}
+	r.mu.Unlock()
+	r.ping()
+}
+func (r *cdRepRaft) reports() (fin, fail, unr int) {
+	r.mu.Lock()
+	defer r.mu.Unlock()
+	return r.fin, r.fail, r.unr
+}
+
+type cdRepSaver struct {
+	mu   sync.Mutex
+	crc  map[uint64]string
+	ok   map[uint64]bool
+	fail map[uint64]bool
+}
+
+func (s *cdRepSaver) SaveDBFrom(r io.Reader, m raftpb.Message) (int64, error) {
+	b, err := ioutil.ReadAll(r)
+	g := m.ToGroup.GroupId
+	s.mu.Lock()
+	defer s.mu.Unlock()
+	if s.fail[g] {
+		return int64(len(b) / 2), fmt.Errorf("no space left on device")
+	}
+	s.crc[g] = cdCRC(b)
+	s.ok[g] = err == nil
+	return int64(len(b)), err
+}
+
+// cdFaultRT injects one fault into the transfer request that passes through it (status
+// check requests pass unless the fault is check-error)
+type cdFaultRT struct {
+	base  http.RoundTripper
+	fault string
+	k     int
+	done  chan struct{}
+}
+
+type cdCutBody struct {
+	rc   io.ReadCloser
+	left int
+}
+
+func (b *cdCutBody) Read(p []byte) (int, error) {
+	if b.left <= 0 {
+		return 0, io.ErrUnexpectedEOF
+	}
+	if len(p) > b.left {
+		p = p[:b.left]
+	}
+	n, err := b.rc.Read(p)
+	b.left -= n
+	return n, err
+}
+func (b *cdCutBody) Close() error { return b.rc.Close() }
+
+func (t *cdFaultRT) RoundTrip(req *http.Request) (*http.Response, error) {
+	if req.URL.Path == rafthttp.RaftSnapshotCheckPrefix {
+		if t.fault == "check-error" {
+			return nil, fmt.Errorf("connection refused")
+		}
+		return t.base.RoundTrip(req)
+	}
+	defer func() {
+		select {
+		case t.done <- struct{}{}:
+		default:
+		}
+	}()
+	switch t.fault {
+	case "rt-error":
+		if req.Body != nil {
+			req.Body.Close()
+		}
+		return nil, fmt.Errorf("connection refused")
+	case "resp-500":
+		if req.Body != nil {
+			req.Body.Close()
+		}
+		return &http.Response{StatusCode: 500, Status: "500 Internal Server Error", Header: http.Header{},
+			Body: ioutil.NopCloser(bytes.NewReader(nil)), Request: req}, nil
+	case "cut-body":
+		req.Body = &cdCutBody{req.Body, t.k}
+		return t.base.RoundTrip(req)
+	case "resp-error":
+		resp, err := t.base.RoundTrip(req)
+		if err == nil {
+			ioutil.ReadAll(resp.Body)
+			resp.Body.Close()
+			return nil, fmt.Errorf("connection reset by peer")
+		}
+		return resp, err
+	}
+	return t.base.RoundTrip(req)
+}
+
+// reportStage: what the SENDER's raft is told about a transfer against what the RECEIVER
+// got.  Real sender/handler pairs over an httptest server: the real pipeline (MsgApp and
+// MsgSnap) -> pipelineHandler, the real snapshotSender (createSnapBody, post, status polling)
+// -> snapshotHandler with a recording saver.  One fault per transfer: none, the round trip
+// fails, the request body is cut after k bytes, the response is lost, a 5xx answer, raft
+// refuses the message, the saver fails, the status check fails.  One `report` line each;
+// ZCodecTrace OnReport decides.  nfast transfers whose outcome is known at once, nslow
+// snapshotSender transfers that reach the status polling (5 s ticker, handler sleeps 1 s):
+// these run concurrently.
+func (d *cdDrv) reportStage(nfast, nslow int) {
+	recv := newCdRepRaft()
+	saver := &cdRepSaver{crc: map[uint64]string{}, ok: map[uint64]bool{}, fail: map[uint64]bool{}}
+	var inflight sync.WaitGroup
+	wrap := func(h http.Handler) http.Handler {
+		return http.HandlerFunc(func(w http.ResponseWriter, r *http.Request) {
+			inflight.Add(1)
+			defer inflight.Done()
+			h.ServeHTTP(w, r)
+		})
+	}
+	sh := wrap(rafthttp.VerifNewSnapshotHandler(recv, saver))
+	mux := http.NewServeMux()
+	mux.Handle(rafthttp.RaftPrefix, wrap(rafthttp.VerifNewPipelineHandler(recv)))
+	mux.Handle(rafthttp.RaftSnapshotPrefix, sh)
+	mux.Handle(rafthttp.RaftSnapshotCheckPrefix, sh)
+	srv := httptest.NewServer(mux)
+	defer srv.Close()
+	base := &http.Transport{}
+	defer base.CloseIdleConnections()
+	var emitMu sync.Mutex
+	gid := uint64(5000)
+	type tcase struct {
+		kind, fault string
+		k           int
+		g           uint64
+	}
+	run := func(c tcase, rng *rand.Rand) {
+		sendr := newCdRepRaft()
+		rt := &cdFaultRT{base: base, fault: c.fault, k: c.k, done: make(chan struct{}, 4)}
+		m := raftpb.Message{Type: raftpb.MsgApp, From: 1, To: 2, Term: 5, LogTerm: 4, Index: uint64(rng.Intn(1000)), Commit: 3,
+			FromGroup: cdGroup(1, 7, 1), ToGroup: raftpb.Group{NodeId: 2, GroupId: c.g, RaftReplicaId: 2, Name: "ns-r"}}
+		var data []byte
+		if c.kind != "pipe-app" {
+			m.Type = raftpb.MsgSnap
+			m.Snapshot.Metadata.Index, m.Snapshot.Metadata.Term = uint64(1+rng.Intn(1000)), 4
+			m.Snapshot.Metadata.ConfState.Nodes = []uint64{1, 2, 3}
+		} else {
+			m.Entries = []raftpb.Entry{{Index: m.Index + 1, Term: 5, Data: make([]byte, 200+rng.Intn(3000))}}
+		}
+		if c.kind == "snap" {
+			data = make([]byte, 2000+rng.Intn(60000))
+			rng.Read(data)
+		}
+		sentcrc := cdCRC(data)
+		recv.mu.Lock()
+		recv.refuse[c.g] = c.fault == "process-fail"
+		recv.mu.Unlock()
+		saver.mu.Lock()
+		saver.fail[c.g] = c.fault == "saver-fail"
+		saver.mu.Unlock()
+		timedOut := false
+		if c.kind == "snap" {
+			ss, err := rafthttp.VerifNewSnapshotSender(1, 2, srv.URL, rt, sendr)
+			if err != nil {
+				return
+			}
+			ss.Send(m, data)
+			// failure reports are made before send returns; a success report comes from the
+			// status polling (5 s ticker; its request times out after 5 s and is then a failure)
+			deadline := time.After(45 * time.Second)
+			for {
+				fin, fail, _ := sendr.reports()
+				if fin+fail > 0 {
+					break
+				}
+				select {
+				case <-sendr.sig:
+				case <-deadline:
+					timedOut = true
+				}
+				if timedOut {
+					break
+				}
+			}
+			time.Sleep(20 * time.Millisecond) // a second report, if any, would follow at once
+			ss.Stop()
+		} else {
+			pl, err := rafthttp.VerifStartPipeline(1, 2, srv.URL, rt, sendr)
+			if err != nil {
+				return
+			}
+			pl.Msgc() <- m
+			select {
+			case <-rt.done:
+			case <-time.After(90 * time.Second):
+				timedOut = true
+			}
+			pl.Stop() // returns when the worker has finished its reports
+		}
+		inflight.Wait()
+		fin, fail, unr := sendr.reports()
+		recv.mu.Lock()
+		got, processed := recv.procs[c.g]
+		recv.mu.Unlock()
+		saved := processed
+		if c.kind == "snap" {
+			saver.mu.Lock()
+			saved = saver.ok[c.g] && saver.crc[c.g] == sentcrc
+			saver.mu.Unlock()
+		}
+		recvdig := ""
+		if processed {
+			recvdig = cdDigest(&got)
+		}
+		emitMu.Lock()
+		defer emitMu.Unlock()
+		if timedOut && c.kind != "snap" {
+			d.nreportSkipped++ // the machine did not get to it: not a case
+			return
+		}
+		d.tw.Emit(trace.M{"ev": "reset", "stream": "msg", "local": 2, "remote": 1, "buffered": false, "stage": "report"})
+		d.nseg++
+		d.nreport++
+		d.reportKinds[c.kind+"/"+c.fault]++
+		d.tw.Emit(trace.M{"ev": "report", "kind": c.kind, "fault": c.fault, "k": c.k, "sentdig": cdDigest(&m), "recvdig": recvdig,
+			"processed": processed, "saved": saved, "finish": fin, "failure": fail, "unreachable": unr})
+	}
+	fastFaults := map[string][]string{
+		"pipe-app":  {"none", "rt-error", "cut-body", "resp-error", "resp-500", "process-fail"},
+		"pipe-snap": {"none", "rt-error", "cut-body", "resp-error", "resp-500", "process-fail"},
+		"snap":      {"rt-error", "cut-body", "cut-body", "resp-500", "saver-fail", "resp-error"},
+	}
+	kinds := []string{"pipe-app", "pipe-snap", "snap"}
+	for i := 0; i < nfast; i++ {
+		kind := kinds[i%3]
+		fs := fastFaults[kind]
+		c := tcase{kind: kind, fault: fs[(i/3)%len(fs)], g: gid}
+		gid++
+		if c.fault == "cut-body" {
+			c.k = 1 + d.rng.Intn(150)
+			if kind == "snap" && d.rng.Intn(2) == 0 {
+				c.k = 400 + d.rng.Intn(1500) // inside the database bytes
+			}
+		}
+		run(c, d.rng)
+	}
+	// transfers that reach the status polling, concurrently (each waits for the 5 s ticker)
+	var wg sync.WaitGroup
+	for i := 0; i < nslow; i++ {
+		c := tcase{kind: "snap", fault: []string{"none", "none", "check-error"}[i%3], g: gid}
+		gid++
+		rng := rand.New(rand.NewSource(d.rng.Int63()))
+		wg.Add(1)
+		go func() {
+			defer wg.Done()
+			run(c, rng)
+		}()
+	}
+	wg.Wait()
+}
+
 // ------------------------------------------------------------------ main
 
 func codecsim(args []string) error {
@@ -2088,6 +2391,8 @@ func codecsim(args []string) error {
 	npost := fs.Int("post", 0, "messages posted through a real pipeline to the real pipelineHandler (+ cut bodies)")
 	nsnap := fs.Int("snap", 0, "snapshot posts (createSnapBody) to the real snapshotHandler (+ cut bodies)")
 	burst := fs.String("burst", "", "burst sizes relative to the writer's queue, comma separated: h-1,h,h+1,h+2,h+3,m,c-1,c,c+1 (h = half the queue = flush batch, m = 3/4, c = capacity); each on both stream types")
+	nreport := fs.Int("report", 0, "transfer-status cases with an immediate outcome (pipeline, snapshotSender failures)")
+	nreportok := fs.Int("reportok", 0, "snapshotSender transfers that reach the status polling (slow: 5 s ticker), run concurrently")
 	nexplore := fs.Int("explore", 0, "streams explored byte by byte (truncation, corruption)")
 	full := fs.Bool("full", false, "explore every truncation point of streams up to 32 KB and 10x the samples of larger ones")
 	payload := fs.Bool("payload", false, "also corrupt payload bytes")
@@ -2165,6 +2470,11 @@ func codecsim(args []string) error {
 	if *nconn > 0 || *npost > 0 || *nsnap > 0 {
 		rafthttp.SetLogLevel(0)
 	}
+	d.reportKinds = map[string]int{}
+	if *nreport > 0 || *nreportok > 0 {
+		rafthttp.SetLogLevel(0)
+		d.reportStage(*nreport, *nreportok)
+	}
 	if *burst != "" {
 		rafthttp.SetLogLevel(0)
 		c := rafthttp.VerifStreamBufSize
@@ -2213,7 +2523,7 @@ func codecsim(args []string) error {
 		"truncations": d.ntrunc, "corruptions": d.ncorrupt, "panics": d.npanic, "decode_errors": d.nerrpath,
 		"skipped_large_alloc":   d.nhuge,
 		"above_limit_cases_run": d.nhugeRun, "child_crashes": d.ncrash, "child_processes": d.nchild,
-		"corruptions_not_run_after_crashes": d.nnotrun, "segments_with_short_reads": d.nchunked, "bursts": d.nburst, "burst_messages": d.nburstMsg, "burst_not_written": d.nburstMissing,
+		"corruptions_not_run_after_crashes": d.nnotrun, "segments_with_short_reads": d.nchunked, "reports": d.nreport, "reports_not_logged": d.nreportSkipped, "bursts": d.nburst, "burst_messages": d.nburstMsg, "burst_not_written": d.nburstMissing,
 		"conn_scenarios": d.nscenario, "conn_connections_cut": d.nconnCut, "conn_delivered": d.ndeliver,
 		"posts": d.npost, "snapshot_posts": d.nsnappost,
 		"stream_connections": d.nconn, "stream_reconnects": d.nreconnect,
@@ -2222,6 +2532,7 @@ func codecsim(args []string) error {
 	}
 	sum["bytes"] = d.bytesTotal
 	sum["burst_sizes"] = d.burstSizes
+	sum["report_cases"] = d.reportKinds
 	sum["trunc_classes"] = d.truncClasses
 	sum["corrupt_classes"] = d.corruptClasses
 	sum["corrupt_fields"] = d.corruptFields
